@@ -117,6 +117,65 @@ func runLine(m *procbuilder.Machine, line string) {
 	out.Line("%s", res)
 }
 
+// runProgram: the multi-line entry point Arch.Assembler on a source text with comment and blank lines
+//
+//	PG <n> / PL <source line> (n of them) / PR ok <word> ... | PR err
+func runProgram(m *procbuilder.Machine, lines []string) {
+	out.Line("PG %d", len(lines))
+	for _, l := range lines {
+		out.Line("PL %s", l)
+	}
+	res := common.Guard(func() string {
+		p, err := m.Arch.Assembler([]byte(strings.Join(lines, "\n") + "\n"))
+		if err != nil {
+			return "PR err"
+		}
+		return strings.TrimSpace("PR ok " + strings.Join(p.Slocs, " "))
+	})
+	if strings.HasPrefix(res, "panic") {
+		res = "PR panic"
+	}
+	out.Line("%s", res)
+}
+
+func genProgram(r *common.Rng, m *procbuilder.Machine, s archSpec) []string {
+	capacity := 1 << uint(s.o)
+	if s.mode == "vn" || (s.mode == "hy" && s.l >= s.o) {
+		capacity = 1 << uint(s.l)
+	}
+	n := 1 + r.Intn(10)
+	if r.Chance(1, 8) && capacity <= 16 {
+		n = capacity + r.Intn(2) // exactly full / one too many
+	}
+	if n > capacity+1 {
+		n = capacity + 1
+	}
+	comments := []string{"", "   ", "# a comment", "#", "\t# indented", "#rset r0 1"}
+	var lines []string
+	pad := func() {
+		for r.Chance(1, 3) {
+			lines = append(lines, comments[r.Intn(len(comments))])
+		}
+	}
+	for i := 0; i < n; i++ {
+		pad()
+		line := ""
+		for try := 0; try < 20; try++ {
+			cand := genLine(r, s, s.ops[r.Intn(len(s.ops))])
+			if w, err := m.Arch.Assembler_process_line([]byte(cand)); (err == nil && w != "") || (try == 19) || r.Chance(1, 60) {
+				line = cand
+				break
+			}
+		}
+		if len(line) > 200 {
+			line = "nop"
+		}
+		lines = append(lines, line)
+	}
+	pad()
+	return lines
+}
+
 // operand kinds of each opcode for *generation only* (the model has its own table; an opcode
 // missing here still gets generic operand mixes)
 func genTokens(r *common.Rng, s archSpec, kind byte) string {
@@ -355,6 +414,9 @@ func main() {
 			if r.Chance(1, 3) {
 				runLine(m, "zzz r0")
 			}
+			for k := 0; k < 2; k++ {
+				runProgram(m, genProgram(r, m, s))
+			}
 			out.Flush()
 		}
 	case "replay":
@@ -366,6 +428,7 @@ func main() {
 		sc := bufio.NewScanner(f)
 		sc.Buffer(make([]byte, 1<<20), 1<<20)
 		var m *procbuilder.Machine
+		var pl []string
 		for sc.Scan() {
 			l := sc.Text()
 			if strings.HasPrefix(l, "A ") {
@@ -386,6 +449,12 @@ func main() {
 				emitLens(m, s)
 			} else if strings.HasPrefix(l, "I ") && m != nil {
 				runLine(m, strings.TrimPrefix(l, "I "))
+			} else if strings.HasPrefix(l, "PG") && m != nil {
+				pl = nil
+			} else if (l == "PL" || strings.HasPrefix(l, "PL ")) && m != nil {
+				pl = append(pl, strings.TrimPrefix(strings.TrimPrefix(l, "PL"), " "))
+			} else if strings.HasPrefix(l, "PR") && m != nil {
+				runProgram(m, pl)
 			}
 		}
 	}
